@@ -21,6 +21,9 @@ static int s_apply(void* st, size_t dim, double t, double h, double y[], double 
   for (size_t i = 0; i < dim; i++) s->ytmp[i] = y[i] + h * s->k2[i];
   if (GSL_ODEIV_FN_EVAL(sys, t + h, s->ytmp.data(), s->k1.data()) != GSL_SUCCESS) return GSL_EBADFUNC;
   g_on_eval(t + h, s->ytmp.data(), s->k1.data(), 2);
+  // rk4's step-doubling shape: a new input buffer (the caller's array again) with the SAME output buffer as the previous call
+  if (GSL_ODEIV_FN_EVAL(sys, t + h, y, s->k1.data()) != GSL_SUCCESS) return GSL_EBADFUNC;
+  g_on_eval(t + h, y, s->k1.data(), 3);
   for (size_t i = 0; i < dim; i++) { y[i] += h * s->k2[i]; yerr[i] = 0; }
   return GSL_SUCCESS;
 }
@@ -63,7 +66,7 @@ static void layer1_config(Problem p, bool reduced) {
     bool any = p.sw[0] || p.sw[1] || p.sw[2] || p.sw[3] || p.sw[4];
     try { s.Evolve(0.2); s.Evolve(0.1); }
     catch (const std::exception& ex) { violation("Evolve:throws-with-scripted-stepper", "{\"problem\":" + pjson(p) + ",\"what\":" + jstr(ex.what()) + "}"); continue; }
-    if (any && nevals != 6) violation("Evolve:unexpected-rhs-call-count", "{\"problem\":" + pjson(p) + ",\"calls\":" + std::to_string(nevals) + "}");
+    if (any && nevals != 8) violation("Evolve:unexpected-rhs-call-count", "{\"problem\":" + pjson(p) + ",\"calls\":" + std::to_string(nevals) + "}");
     if (!s.views_coincide()) violation("Evolve:views-not-realiased", "{\"problem\":" + pjson(p) + "}");
   }
 }
@@ -109,8 +112,9 @@ int main(int argc, char** argv) {
   }
   // ----- layer 2 -----
   std::vector<Mode> modes = {
-    {"rk2", gsl_odeiv2_step_rk2, true, 1e-6}, {"rk4", gsl_odeiv2_step_rk4, true, 1e-6}, {"rkf45", gsl_odeiv2_step_rkf45, true, 1e-6}, {"rkck", gsl_odeiv2_step_rkck, true, 1e-6}, {"rk8pd", gsl_odeiv2_step_rk8pd, true, 1e-6}, {"msadams", gsl_odeiv2_step_msadams, true, 1e-6},
-    {"rk2", gsl_odeiv2_step_rk2, false, 1e-5}, {"rk4", gsl_odeiv2_step_rk4, false, 1e-8}, {"rkf45", gsl_odeiv2_step_rkf45, false, 1e-8}, {"rkck", gsl_odeiv2_step_rkck, false, 1e-8}, {"rk8pd", gsl_odeiv2_step_rk8pd, false, 1e-8}};
+    // accepted deviation per mode: >= 30x the largest error observed on the repaired tree (truncation error of the stepper dominates)
+    {"rk2", gsl_odeiv2_step_rk2, true, 1e-7}, {"rk4", gsl_odeiv2_step_rk4, true, 1e-7}, {"rkf45", gsl_odeiv2_step_rkf45, true, 1e-7}, {"rkck", gsl_odeiv2_step_rkck, true, 1e-7}, {"rk8pd", gsl_odeiv2_step_rk8pd, true, 1e-7}, {"msadams", gsl_odeiv2_step_msadams, true, 1e-7},
+    {"rk2", gsl_odeiv2_step_rk2, false, 1e-6}, {"rk4", gsl_odeiv2_step_rk4, false, 1e-10}, {"rkf45", gsl_odeiv2_step_rkf45, false, 1e-10}, {"rkck", gsl_odeiv2_step_rkck, false, 1e-10}, {"rk8pd", gsl_odeiv2_step_rk8pd, false, 1e-10}};
   if (ar.reduced) modes = {modes[2], modes[5], modes[7]};
   std::vector<int> nxs = th ? std::vector<int>{1, 2, 3} : std::vector<int>{1, 2}, dims2 = th ? std::vector<int>{2, 3, 4, 5, 6} : std::vector<int>{2, 3}, nscs = th ? std::vector<int>{0, 1, 2} : std::vector<int>{0, 1};
   if (ar.reduced) { nxs = {2}; dims2 = {3}; nscs = {1}; }
